@@ -268,7 +268,14 @@ func decodeValue(dec valueDecoder, param string, sm *openapi3.SerializationMetho
 		var err error
 		var merged map[string]any
 		var last any
-		for _, sr := range schema.Value.AllOf {
+		members := schema.Value.AllOf
+		if schema.Value.Type != nil || len(schema.Value.Properties) > 0 {
+			// what the schema says itself next to allOf (a type, properties) describes the value as well
+			own := *schema.Value
+			own.AllOf = nil
+			members = append(openapi3.SchemaRefs{{Value: &own}}, members...)
+		}
+		for _, sr := range members {
 			var f bool
 			value, f, err = decodeValue(dec, param, sm, sr, required)
 			found = found || f
